@@ -17,6 +17,7 @@ import (
 	"github.com/bradenaw/juniper/xtime"
 	"pgregory.net/rapid"
 
+	"verif/harness/sk"
 	"verif/harness/vk"
 )
 
@@ -68,9 +69,9 @@ func run(p Plan) (vk.Outcome, error) {
 		d := us(c.DUs)
 		ctx, cancel := context.Background(), context.CancelFunc(func() {})
 		if c.DeadUs > 0 {
-			ctx, cancel = context.WithTimeout(ctx, us(c.DeadUs))
+			ctx, cancel = sk.WithTimeout(ctx, us(c.DeadUs))
 		} else if c.CancelUs > 0 {
-			ctx, cancel = context.WithCancel(ctx)
+			ctx, cancel = sk.WithCancel(ctx)
 		}
 		start := time.Now()
 		stop := make(chan struct{})
